@@ -38,8 +38,8 @@ ENCODINGS = [None, None, 'utf-8', 'latin-1', 'utf-16', 'utf-32', 'cp037',
 
 
 def gen_file_spec(rng):
-    kind = rng.choices(['text', 'binary', 'empty', 'absent', 'unparsable'],
-                       [70, 8, 5, 8, 9])[0]
+    kind = rng.choices(['text', 'binary', 'empty', 'absent', 'unparsable',
+                        'huge_number'], [70, 8, 5, 8, 9, 2])[0]
     spec = {'kind': kind, 'meta': {'path': 'f%d' % rng.randrange(1000)},
             'ins': 0, 'dels': 0}
     if rng.random() < 0.3:
@@ -58,6 +58,9 @@ def gen_file_spec(rng):
     lines = head + lines
     if kind == 'unparsable':
         lines = lines + [b'@@ -1,3 +1,3 @@', b' a', b'-b']
+    if kind == 'huge_number':
+        # a hunk header no integer conversion survives: not analysable
+        lines = lines + [b'@@ -1 +' + b'9' * 4400 + b' @@', b'-a', b'+b']
     if not lines:
         lines = [b'only garbage']
     nl = rng.choice(['unix', 'unix', 'dos'])
@@ -81,8 +84,21 @@ def gen_file_spec(rng):
         spec['kind'] = 'empty'
         spec['diff'] = b''
         return spec
+    text = raw.decode('latin-1')
+    if enc is not None and enc != 'latin-1' and enc != 'cp037' and \
+            rng.random() < 0.3:
+        # a first (garbage) line whose characters spell LF / CR units across
+        # character boundaries in UTF-16/32
+        first = 'Index: \u0a85\u3000 \u3000\u0a20 \u0d0a\u0a0d \u4e00\u0a85'
+        text = first + sep.decode() + text
+        if not explicit:
+            # with undeclared line endings such bytes make the first-line
+            # rule ambiguous for anything that has to guess on the ENCODED
+            # bytes (the writer, when the tree is serialised): such a tree
+            # is only analysed directly, never after a write/parse cycle
+            spec['no_roundtrip'] = True
     if enc is not None:
-        raw = raw.decode('latin-1').encode(enc)
+        raw = text.encode(enc)
     spec['diff'] = raw
     spec['encoding'] = enc
     spec['line_endings'] = nl if explicit else None
@@ -92,6 +108,11 @@ def gen_file_spec(rng):
         spec['ins'] = expected['total_inserts']
         spec['dels'] = expected['total_deletes']
     spec['nl'] = nl
+    # containers may declare any encoding: statistics never read a diff
+    # through it
+    if rng.random() < 0.3:
+        spec['file_encoding'] = rng.choice(['utf-16', 'utf-32', 'cp037',
+                                            'latin-1', 'utf-16-be'])
     return spec
 
 
@@ -145,6 +166,8 @@ def build(spec):
                 kw['diff_line_endings'] = f['line_endings']
             if f.get('type'):
                 kw['diff_type'] = f['type']
+            if f.get('file_encoding'):
+                kw['encoding'] = f['file_encoding']
             files.append((c.add_file(**kw), f))
     return d, files
 
@@ -201,6 +224,9 @@ class _Capture(logging.Handler):
 def check_case(spec, obs, pre_calls=0):
     case = {'spec': spec, 'pre_calls': pre_calls}
     d, files = build(spec)
+    if pre_calls == 3 and any(f.get('no_roundtrip') for ch in spec['changes']
+                              for f in ch['files']):
+        pre_calls = 0
     if pre_calls == 3:
         # the same tree after a serialise -> parse round trip (what a tool
         # that post-processes an existing DiffX file works on)
@@ -243,6 +269,8 @@ def check_case(spec, obs, pre_calls=0):
         for fi, f in enumerate(ch['files']):
             live = d.changes[ci].files[fi]
             analysable = f['kind'] == 'text'
+            if f.get('file_encoding'):
+                obs.count('files_with_container_encoding')
             obs.count('files_analysable' if analysable
                       else 'files_not_analysable')
             obs.count('file_kind:%s' % f['kind'])
